@@ -156,6 +156,8 @@ func run(c *vf.Ctx) {
 	c.Rule("fault enumeration on genuine sealed messages: targets {ChaCha20-Poly1305, XChaCha20-Poly1305} x path{asm,generic}, secretbox.Open, box.Open, box.OpenAfterPrecomputation, box.OpenAnonymous; " +
 		"message lengths {0,1,15,16,17,63,64,65,255,256,257,1024} (NaCl also 31,32,33; thorough: every 0..300); faults = EVERY single-bit flip of sealed output / nonce / AD / key, truncation by 1..32 at either end, " +
 		"extension by 1..32 at either end (3 byte classes), every length 0..15, 2- and 4-byte overwrites at 8 positions x 3 patterns, AD<->ciphertext boundary shifts by 1..16, AD truncation/extension; " +
+		"for the width-truncation AD lengths {0,1,12,13,14,16}+{256,512,768,4096,65536}, 255, 257, 511, 513, 65535, 65537 (plaintext lengths 0,1,16,65,257): a bit flip and a substituted byte in EACH 16-byte block of the AD (64 KiB class in quick: every block for lengths = 13 or 16 mod 256, else every 16th), " +
+		"same-length AD agreeing on the first 13/16/32 bytes, AD cut to its length mod 256, +-1/16/256 bytes, every tag bit; " +
 		"plus the STEERED-ACCUMULATOR family (messages crafted with math/big so that the AEAD code's own Poly1305 accumulator has chosen limb values before the lengths block and before the final reduction, 15 lengths x AD {0,1,13,16,17} x both nonce sizes): " +
 		"genuine tag accepted; tag +-1 in either 64-bit half and the tags obtained by dropping/duplicating the carry out of the low or middle limb when the lengths block is added are rejected (dst nil and in place); " +
 		"each fault opened with dst{prefix+poisoned spare capacity, nil, in place}; non-trivial = distinct (target,length,field,fault kind,byte position); " +
@@ -174,8 +176,30 @@ func aeadPart(c *vf.Ctx) {
 	ls := lens(c)
 	adLens := []int{0, 13, 16, 33}
 	nv := 1 + c.V() // value classes: ascending + seeded
-	type unit struct{ v, n, an, ci int }
+	type unit struct {
+		v, n, an, ci int
+		ext          bool // extended AD length: AD-focused faults only
+	}
 	var units []unit
+	// width-truncation classes of the AD length: special small length + k*256 etc.
+	var extAD []int
+	for _, base := range []int{256, 512, 768, 4096, 65536} {
+		for _, d := range []int{0, 1, 12, 13, 14, 16} {
+			extAD = append(extAD, base+d)
+		}
+	}
+	extAD = append(extAD, 255, 257, 511, 513, 65535, 65537)
+	for _, an := range extAD {
+		for v := range variants {
+			for _, n := range []int{0, 1, 16, 65, 257} {
+				if an > 5000 && n != 0 && n != 65 {
+					continue // the 64 KiB class: two plaintext length classes
+				}
+				units = append(units, unit{v, n, an, 0, true})
+			}
+		}
+	}
+	c.Set("extended_ad_lengths", extAD)
 	for i := len(ls) - 1; i >= 0; i-- {
 		for v := range variants {
 			for ai, an := range adLens {
@@ -184,7 +208,7 @@ func aeadPart(c *vf.Ctx) {
 					if ci > 0 && ai != 1 {
 						continue
 					}
-					units = append(units, unit{v, ls[i], an, ci})
+					units = append(units, unit{v, ls[i], an, ci, false})
 				}
 			}
 		}
@@ -254,8 +278,12 @@ func aeadPart(c *vf.Ctx) {
 				det := func(mode string) map[string]any {
 					return map[string]any{"target": tgt, "len": u.n, "adLen": u.an, "class": u.ci, "field": field, "fault": ft.kind, "pos": ft.pos, "dst": mode}
 				}
-				nt[fmt.Sprintf("%s/%d/%s/%s/%d", tgt, u.n, field, ft.kind, ft.pos)] = struct{}{}
-				for mode := 0; mode < 3; mode++ {
+				nt[fmt.Sprintf("%s/%d/%d/%s/%s/%d", tgt, u.n, u.an, field, ft.kind, ft.pos)] = struct{}{}
+				modes := 3
+				if u.an > 5000 {
+					modes = 1 // 64 KiB of AD per Open: one dst mode
+				}
+				for mode := 0; mode < modes; mode++ {
 					name := [...]string{"prefix+spare", "nil", "in-place"}[mode]
 					var dst []byte
 					in := append(make([]byte, 0, len(ctF)+8), ctF...)
@@ -320,6 +348,75 @@ func aeadPart(c *vf.Ctx) {
 				}
 			}
 
+			if u.ext {
+				// AD-focused faults for the long / width-truncation AD lengths
+				blocks := (u.an + 15) / 16
+				every := u.an <= 5000 || c.Thorough || u.an%256 == 13 || u.an%256 == 16
+				for b := 0; b < blocks; b++ {
+					if !every && b%16 != 0 && b >= 4 && b < blocks-4 {
+						continue
+					}
+					// a bit flip somewhere in the block (position varies with the block index) ...
+					i := 16*b + b%16
+					if i >= u.an {
+						i = u.an - 1
+					}
+					m := append([]byte(nil), ad...)
+					m[i] ^= 1 << (b % 8)
+					try("ad", fault{"bitflip-in-block", b, nil}, aead, nonce, sealed, m)
+					// ... and a substituted byte at the end of the block
+					j := 16*b + 15
+					if j >= u.an {
+						j = u.an - 1
+					}
+					m = append([]byte(nil), ad...)
+					m[j] ^= 0xA5
+					try("ad", fault{"byte-substituted-in-block", b, nil}, aead, nonce, sealed, m)
+				}
+				// another AD of the same length that agrees on the first 13 / 16 / 32 bytes
+				for _, k := range []int{13, 16, 32} {
+					if u.an > k {
+						m := append([]byte(nil), ad...)
+						for i := k; i < len(m); i++ {
+							m[i] ^= 0x5A
+						}
+						try("ad", fault{"same-length-AD-agreeing-on-prefix", k, nil}, aead, nonce, sealed, m)
+						m = append([]byte(nil), ad...)
+						m[len(m)-1] ^= 1
+						try("ad", fault{"same-length-AD-differing-in-last-byte", k, nil}, aead, nonce, sealed, m)
+					}
+				}
+				// length confusions: AD cut to its length mod 256, shortened/extended by 256, by 1, by 16
+				if k := u.an & 0xff; k != u.an {
+					try("ad", fault{"truncated-to-length-mod-256", k, nil}, aead, nonce, sealed, ad[:k])
+				}
+				for _, k := range []int{1, 16, 256} {
+					if u.an >= k {
+						try("ad", fault{"truncate-tail", k, nil}, aead, nonce, sealed, ad[:u.an-k])
+					}
+					try("ad", fault{"extend-tail", k, nil}, aead, nonce, sealed, append(append([]byte(nil), ad...), make([]byte, k)...))
+				}
+				try("ad", fault{"dropped", 0, nil}, aead, nonce, sealed, nil)
+				// the sealed output itself: every bit of the tag and the ciphertext/tag boundary
+				for i := len(sealed) - 16; i < len(sealed); i++ {
+					for b := 0; b < 8; b++ {
+						m := append([]byte(nil), sealed...)
+						m[i] ^= 1 << b
+						try("sealed", fault{"bitflip", i, nil}, aead, nonce, m, ad)
+					}
+				}
+				c.Eval(evals)
+				for k := range nt {
+					c.Nontrivial(k)
+				}
+				for k := range oc {
+					c.Outcome(k)
+				}
+				if u.an == 269 && u.n == 65 {
+					c.Sample(map[string]any{"target": tgt, "len": u.n, "adLen": u.an, "distinct_faults": len(nt), "opens": evals, "ad_blocks": blocks})
+				}
+				return
+			}
 			eachFault(sealed, u.n, 16, ext, func(ft fault) { try("sealed", ft, aead, nonce, ft.data, ad) })
 			eachBitflip(nonce, nil, func(ft fault) { try("nonce", ft, aead, ft.data, sealed, ad) })
 			eachBitflip(key, nil, func(ft fault) {
